@@ -10,7 +10,7 @@
 //   a:<alignment>                 pool.setAlignment(alignment)
 //
 // After every operation the whole observable state is printed:
-//   <ok|ERR|NUL> <reserved> <size> <numReservations> <alignment> <memoryAllocated> <maxMemoryAllocated> <mig>
+//   <token> <ok|ERR|NUL> <reserved> <size> <numReservations> <alignment> <memoryAllocated> <maxMemoryAllocated> <mig>
 //      [ id/family@offset+size#fnv32(contents) ... ]        (in the order of the pool's reservation set)
 #include <algorithm>
 #include <cstdint>
@@ -63,7 +63,8 @@ int main() {
         try {
           if (k == 'r') {
             std::vector<long> f = fields(tok.substr(1));
-            occa::memory m = pool.reserve(f[1], occa::dtype::byte);
+            occa::memory m;
+            if (!mems.count(f[0])) m = pool.reserve(f[1], occa::dtype::byte);
             if (!m.isInitialized()) tag = "NUL";
             else {
               mems[f[0]] = m; fam[f[0]] = f[0];
@@ -74,7 +75,7 @@ int main() {
           } else if (k == 's') {
             std::vector<long> f = fields(tok.substr(1));
             auto it = mems.find(f[1]);
-            if (it == mems.end()) tag = "NUL";
+            if (it == mems.end() || mems.count(f[0])) tag = "NUL";
             else {
               occa::memory m = it->second.slice(f[2], f[3]);
               if (!m.isInitialized()) tag = "NUL";
@@ -109,7 +110,7 @@ int main() {
         const int mig = (hadRes && bufBefore != bufAfter) ? 1 : 0;
         if (!first) out << " ; ";
         first = false;
-        out << tag << " " << pool.reserved() << " " << pool.size() << " " << pool.numReservations() << " "
+        out << tok << " " << tag << " " << pool.reserved() << " " << pool.size() << " " << pool.numReservations() << " "
             << pool.alignment() << " " << device.memoryAllocated() << " " << device.maxMemoryAllocated()
             << " " << mig << " [";
         std::map<occa::modeMemory_t*, long> ids;
